@@ -42,6 +42,17 @@ RNone == RScope("none", 0, 0, 0, 0, 0)
 RRes(p, s, pres, ok) == [pos |-> p, sc |-> s, pres |-> pres, ok |-> ok]      \* pres in {"none", "yes", "no"}
 Pres(b) == IF b = 1 THEN "yes" ELSE "no"
 
+\* 11.6: the number of extension additions minus one as a normally small number at position p: one bit 0 and six bits,
+\* or (>= 64) one bit 1, a length determinant and that many octets.  [ok, n (the number of additions), pos (behind it)]
+SmallCount(p) ==
+  IF ~Avail(p, 1) THEN [ok |-> FALSE, n |-> 0, pos |-> p]
+  ELSE IF BitAt(p) = 0
+  THEN IF Avail(p, 7) THEN [ok |-> TRUE, n |-> BitsNat(SubSeq(msg, p + 2, p + 7)) + 1, pos |-> p + 7] ELSE [ok |-> FALSE, n |-> 0, pos |-> p]
+  ELSE LET d == DecLenGeneral(msg, p + 1)
+       IN IF d.ok /\ ~d.frag /\ d.n >= 1 /\ d.n <= 3 /\ Avail(d.pos, 8 * d.n)
+          THEN [ok |-> TRUE, n |-> BitsNat(SubSeq(msg, d.pos + 1, d.pos + 8 * d.n)) + 1, pos |-> d.pos + 8 * d.n]
+          ELSE [ok |-> FALSE, n |-> 0, pos |-> p]
+
 \* Scope::read_from_field and the scope-less branch of read_bit_field_entry
 RECURSIVE REntry(_, _, _)
 REntry(p, s, isOpt) ==
@@ -58,11 +69,11 @@ REntry(p, s, isOpt) ==
     [] s.k = "extseq" /\ s.calls = 0 ->
          \* the first extension addition: number of additions (normally small, 19.8), then the presence bitmap;
          \* only as many presence bits as were transmitted AND are known belong to the range
-         IF ~Avail(p, 7) \/ BitAt(p) = 1 THEN RRes(p, s, "none", FALSE)               \* more than 64 additions: not traced
-         ELSE LET readN == BitsNat(SubSeq(msg, p + 2, p + 7)) + 1
-                  width == Min(readN, s.nExt)
-                  s1 == RScopeX("all", 0, p + 7, p + 7 + width, 0, s.nExt, p + 7, readN)
-              IN IF Avail(p + 7, readN) THEN REntry(p + 7 + readN, s1, isOpt) ELSE RRes(p, s, "none", FALSE)
+         LET cnt == SmallCount(p)
+         IN IF ~cnt.ok THEN RRes(p, s, "none", FALSE)
+            ELSE LET width == Min(cnt.n, s.nExt)
+                     s1 == RScopeX("all", 0, cnt.pos, cnt.pos + width, 0, s.nExt, cnt.pos, cnt.n)
+                 IN IF Avail(cnt.pos, cnt.n) THEN REntry(cnt.pos + cnt.n, s1, isOpt) ELSE RRes(p, s, "none", FALSE)
     [] s.k = "extempty" -> RRes(p, s, "no", TRUE)
 
 \* with_buffer: [ok, start, endp] - the content starts at start; endp = 0 - 1 means "no window" (read in place)
@@ -92,9 +103,8 @@ AfterUnknown(p, s) ==
   IF "NoSkipUnknownAdditions" \in Dev THEN p                  \* the code today: nothing is skipped
   ELSE IF s.k = "all" /\ s.readN > s.nExt THEN SkipOpen(p, PresentFrom(s.base, s.nExt + 1, s.readN))
   ELSE IF s.k = "extseq" /\ s.calls = 0 /\ s.nExt = 0          \* extension bit set, but this reader knows no addition at all
-  THEN IF ~Avail(p, 7) \/ BitAt(p) = 1 THEN 0 - 1
-       ELSE LET readN == BitsNat(SubSeq(msg, p + 2, p + 7)) + 1
-            IN IF Avail(p + 7, readN) THEN SkipOpen(p + 7 + readN, PresentFrom(p + 7, 1, readN)) ELSE 0 - 1
+  THEN LET cnt == SmallCount(p)
+       IN IF cnt.ok /\ Avail(cnt.pos, cnt.n) THEN SkipOpen(cnt.pos + cnt.n, PresentFrom(cnt.pos, 1, cnt.n)) ELSE 0 - 1
   ELSE p
 
 \* the exit of a composite: the caller's scope comes back; an open type is left at the end of its window
